@@ -534,7 +534,7 @@ def run_check(spec, res, workdir):
     if res.extra.get("tr_evals"):
         res.extra.setdefault("coverage", {})["translated_source_evaluations"] = res.extra["tr_evals"]
         res.oblige("translated:source-agrees-with-model", not trd,
-                   ("the functions regenerated from the Go source (go2lean + GoSem interpreter: match/match.go, tools/analysis.go) and the hand-written model differ on %d case(s); first: %s"
+                   ("the functions regenerated from the Go source (go2lean + GoSem interpreter: match/match.go, tools/analysis.go, sio/crew.go routing) and the hand-written model differ on %d case(s); first: %s"
                     % (len(trd), json.dumps(trd[0])[:600])) if trd else "")
     res.oblige("correspondence:" + pid, corr_ok and not res.diffs,
                "%d disagreements between model and implementation" % len(res.diffs))
